@@ -85,7 +85,7 @@ package mongodb
 // (Observation, not a finding: with a finite `to` the code builds the `$lte` pair but discards it — the result of
 // f.AddFilterLTE(..) is not assigned — so the upper bound is not sent. No caller passes a finite bound.)
 //@   requires[unbounded-form-only] to == constants.InfinitySseq
-//@   checks[whole-tail-of-the-log] len(qf()) == 2
+//@   checks[whole-tail-of-the-log] len(qf()) == 2 && !G.qWindowed
 //@   checks[in-log-order] G.qSort != nil && G.qSort.(bson.D) && len(qs()) == 1 && eqAt(qs(), 0, "sseq", 1)
 //@   checks[database-error-is-reported] G.qErr != nil ==> result2 != nil
 //@   checks[one-sseq-per-operation] len(result0) == len(result1)
